@@ -256,7 +256,19 @@ pub const LABELS: &[&str] = &[
 
 /// One-shot reference: decode the whole input at once with ample output space.
 fn expected_enc(enc: &'static encoding_rs::Encoding, all: &[u8]) -> Vec<Item> {
-    let mut d = enc.new_decoder();
+    expected_dec(enc.new_decoder(), all)
+}
+
+/// 0: new_decoder (BOM sniffing), 1: BOM removal, 2: no BOM handling
+fn decoder_of_kind(enc: &'static encoding_rs::Encoding, kind: u8) -> encoding_rs::Decoder {
+    match kind {
+        1 => enc.new_decoder_with_bom_removal(),
+        2 => enc.new_decoder_without_bom_handling(),
+        _ => enc.new_decoder(),
+    }
+}
+
+fn expected_dec(mut d: encoding_rs::Decoder, all: &[u8]) -> Vec<Item> {
     let mut out = vec![];
     let cap = d.max_utf8_buffer_length(all.len()).unwrap_or(all.len() * 4 + 64) + 64;
     let mut buf = vec![0u8; cap];
@@ -296,6 +308,32 @@ fn check_enc(label: &str, chunks_: &[Vec<u8>], st: &mut Stats) -> Result<(), Str
     } else {
         expected_enc(enc, &all)
     };
+    // the caller-configured entry point: each kind of encoding_rs decoder (BOM sniffing, BOM
+    // removal, no BOM handling), for UTF-8 too, against a one-shot decode by the same kind
+    {
+        let kind = (hash64(&(label, chunks_)) % 3) as u8;
+        let mut dec = LossyDecoder::new_from_encoding_rs_decoder(decoder_of_kind(enc, kind), Rec::default());
+        for c in chunks_ {
+            dec.process(ByteTendril::from_slice(c));
+        }
+        let got = dec.finish();
+        let want = expected_dec(decoder_of_kind(enc, kind), &all);
+        if got.bad_utf8 {
+            return Err("inner sink received a tendril that is not valid UTF-8 (new_from_encoding_rs_decoder)".into());
+        }
+        if got.items != want {
+            let n = got.items.iter().zip(want.iter()).take_while(|(a, b)| a == b).count();
+            let lo = n.saturating_sub(8);
+            return Err(format!(
+                "{label}: new_from_encoding_rs_decoder (decoder kind {kind}: 0 BOM sniffing, 1 BOM removal, 2 none) differs from the one-shot decode by the same kind of decoder at item {n}:\n got …{}\n exp …{}",
+                show(&got.items[lo..got.items.len().min(n + 8)]),
+                show(&want[lo..want.len().min(n + 8)]),
+            ));
+        }
+        if all.starts_with(b"\xef\xbb\xbf") || all.starts_with(b"\xff\xfe") || all.starts_with(b"\xfe\xff") {
+            st.label("encoding_rs: input starts with a BOM");
+        }
+    }
     if rec.items != exp {
         let n = rec.items.iter().zip(exp.iter()).take_while(|(a, b)| a == b).count();
         let lo = n.saturating_sub(8);
@@ -455,7 +493,14 @@ fn gen_enc_bytes_short(s: &mut Src, label: &str, n: usize) -> Vec<u8> {
 
 fn decode_enc_case(s: &mut Src) -> Case {
     let label = *s.pick(LABELS);
-    let b = gen_enc_bytes(s, label);
+    let mut b = gen_enc_bytes(s, label);
+    if s.chance(50) {
+        // a byte order mark (of this or another encoding) in front, possibly truncated
+        let bom: &[u8] = *s.pick(&[&b"\xef\xbb\xbf"[..], &b"\xff\xfe"[..], &b"\xfe\xff"[..], &b"\xef\xbb"[..], &b"\xff"[..], &b"\xef\xbb\xbf\xef\xbb\xbf"[..]]);
+        let mut v = bom.to_vec();
+        v.extend_from_slice(&b);
+        b = v;
+    }
     let mut cuts = chunks::gen_cuts(s, b.len());
     if b.len() > 8192 && s.chance(128) {
         // at most one cut: some chunk alone overflows the decoder's output window
@@ -470,7 +515,7 @@ fn decode_enc_case(s: &mut Src) -> Case {
 
 pub fn run(ctx: &Ctx) -> Report {
     let mut rep = Report::new(
-        "(1) bounded-exhaustive: every byte string of length <= L over the 25 boundary bytes of the UTF-8 well-formedness table x every partition into chunks (2^(n-1)), through Utf8LossyDecoder into a recording sink, (and through TendrilSink::read_from with short reads, half of the time with reads that first fail with ErrorKind::Interrupted; some inputs are repeated past the 4 KiB read buffer), compared item by item (characters and error calls, in order) with std's utf8_chunks()/from_utf8_lossy of the whole input; (2) random UTF-8-structured byte strings (<=40 units: ASCII, valid chars, truncated sequences, surrogates, overlongs, >10FFFF, stray continuations, BOM) x random cut multisets incl. empty chunks, 1/4 of them also parsed through parse_document(..).from_utf8() (HTML and XML drivers) and compared with the tree of the lossy string; (3) each of the 40 encoding_rs encodings: LossyDecoder::new_encoding_rs fed in chunks vs a one-shot decode of the whole input (characters, malformed-sequence errors, pending state at end of stream), inputs biased to lead/trail/escape bytes, surrogates and >8 KiB lengths. Non-trivial: an ill-formed/incomplete sequence or a valid multi-byte character is adjacent to / split by a cut (UTF-8), or >=2 non-empty chunks with non-ASCII output or a malformed sequence (encoding_rs); distinct by hash of (encoding, chunk list).",
+        "(1) bounded-exhaustive: every byte string of length <= L over the 25 boundary bytes of the UTF-8 well-formedness table x every partition into chunks (2^(n-1)), through Utf8LossyDecoder into a recording sink, (and through TendrilSink::read_from with short reads, half of the time with reads that first fail with ErrorKind::Interrupted; some inputs are repeated past the 4 KiB read buffer), compared item by item (characters and error calls, in order) with std's utf8_chunks()/from_utf8_lossy of the whole input; (2) random UTF-8-structured byte strings (<=40 units: ASCII, valid chars, truncated sequences, surrogates, overlongs, >10FFFF, stray continuations, BOM) x random cut multisets incl. empty chunks, 1/4 of them also parsed through parse_document(..).from_utf8() (HTML and XML drivers) and compared with the tree of the lossy string; (3) each of the 40 encoding_rs encodings: LossyDecoder::new_encoding_rs, and LossyDecoder::new_from_encoding_rs_decoder with each kind of decoder (BOM sniffing / BOM removal / no BOM handling, UTF-8 included), fed in chunks vs a one-shot decode of the whole input by the same kind of decoder (characters, malformed-sequence errors, pending state at end of stream), inputs biased to lead/trail/escape bytes, surrogates and >8 KiB lengths. Non-trivial: an ill-formed/incomplete sequence or a valid multi-byte character is adjacent to / split by a cut (UTF-8), or >=2 non-empty chunks with non-ASCII output or a malformed sequence (encoding_rs); distinct by hash of (encoding, chunk list).",
     );
     rep.assume("std::str::Utf8Chunks / String::from_utf8_lossy and encoding_rs's one-shot decode are the reference decoders");
     run_regressions(ctx, &mut rep, &|v| replay(&ctx.strict_clone(), v));
@@ -532,6 +577,7 @@ pub fn run(ctx: &Ctx) -> Report {
     rep.need("encoding_rs: input > 8 KiB (output window)", 20);
     rep.need("read_from with Interrupted reads", 1000);
     rep.need("encoding_rs: a single chunk > 8 KiB", 20);
+    rep.need("encoding_rs: input starts with a BOM", 200);
     rep
 }
 
